@@ -623,6 +623,20 @@ class Executor:
             if re.match(r'^(fn\(|for<)', m.group(1).strip()) is None and '{' not in m.group(1) and re.search(r'::[a-z_]\w*(::<.*>)?$', m.group(1).strip()):
                 return FnItem(m.group(1).strip())
             return Obj(m.group(1), 'zst')
+        # promoted constants of the current function: evaluate their body
+        pm = re.search(r'::promoted\[(\d+)\]$', c)
+        if pm and fr is not None:
+            base = fr.fn.name
+            base = re.sub(r'::\{closure#\d+\}$', '', base) if (base + f'::promoted[{pm.group(1)}]') not in self.prog.const_bodies else base
+            body = self.prog.const_bodies.get(fr.fn.name + f'::promoted[{pm.group(1)}]') or self.prog.const_bodies.get(base + f'::promoted[{pm.group(1)}]')
+            if body is not None:
+                outs = list(self.call_fn(st, body, []))
+                if len(outs) == 1 and outs[0][0] is st and outs[0][1] is not None:
+                    return outs[0][1]
+        if re.fullmatch(r'[\w:]+', c):
+            cv = [v for k, v in self.prog.const_values.items() if k == c or k.endswith('::' + c) or c.endswith('::' + k)]
+            if len(cv) == 1 and cv[0] != c:
+                return self.const(st, cv[0], fr)
         # named constants:  journal::writer::PRE_ALLOCATED_BYTES, file::MAGIC_BYTES, promoted refs ...
         o = Obj('', 'const:' + c[:60], 'const'); o.data['const'] = c
         known = self.contract.const_value(self, st, c)
